@@ -68,7 +68,7 @@ def r1(ctx):
               f"model_specs = `{norm(ms) if ms is not None else None}`")
     writes = [c for c in ast.walk(g.node) if isinstance(c, ast.Call) and isinstance(c.func, ast.Attribute) and c.func.attr == "_map"
               and ("transform_state.update" in norm(c) or "_build_model_matrix" in norm(c))]
-    ctx.floor("C18.R1", len(writes), 2, "state-writing / building maps in get_model_matrix")
+    ctx.floor("C18.R1", len(writes), 1, "state-writing / building maps in get_model_matrix")
     for w in writes:
         ctx.look()
         ctx.check(norm(w.func.value) == "model_specs", "C18.R1", "state is written into / matrices are built from the owned specs only", g.module.line(w),
@@ -852,6 +852,16 @@ def r8(ctx):
     caches = [norm(st.target if isinstance(st, ast.AnnAssign) else st.targets[0]).replace("self.", "") for st in walk_no_nested(init.node)
               if isinstance(st, (ast.Assign, ast.AnnAssign)) and norm(st.target if isinstance(st, ast.AnnAssign) else st.targets[0]).startswith("self.")
               and st.value is not None and norm(st.value) == "{}"]
+    # the caches are per-materializer objects: a mutable class attribute of the same role would be shared by every instance (and by
+    # nested builds that run while another build is under way)
+    C_ = P.cls(MAT)
+    shared_ = sorted(k for k, v in C_.assigns.items() if k.endswith("_cache") and isinstance(v, (ast.Dict, ast.List, ast.Set, ast.Call)))
+    ctx.look()
+    ctx.check(not shared_, "C18.R8", "the materializer's caches are instance state, created in __init__", C_.where, ctx.construct(MAT, text="cache attributes are per instance"),
+              f"{shared_} are class-level mutable attributes: all materializers share them, so a model_matrix() call made from inside a transform or context "
+              f"function while another build is running overwrites that build's evaluated factors")
+    if shared_:
+        return
     ctx.floor("C18.R8", len(caches), 2, "cache attributes of the materializer")
     g = P.func(MAT + ".get_model_matrix")
     cfg = CFG(g.node)
